@@ -345,6 +345,10 @@ def _run(ctx, pgpy, d):
         ns = 1 if i % 3 else rng.choice([2, 3])
         signers = [pick_key(ctx, knames, i + j) for j in range(ns)]
         hs = [hashes[(i // 2 + 3 * j) % len(hashes)] for j in range(ns)]
+        if i % 17 == 4:
+            # ONE key signs twice in the same second with two digests (e.g. SHA256 for old readers, SHA512 for new ones): two signatures
+            signers = [signers[0], signers[0]] + signers[1:]
+            hs = ['SHA256', 'SHA512'] + hs[1:]
         hdrs = [] if i % 5 else [('Version', 'PGPy t'), ('Comment', 'c%d' % i)]
         one_flow(ctx, pgpy, d, keys, t, signers, hs, hdrs, T0)
     ctx.exhaustive.append('every text over {-, SP, LF, CR, a, TAB} up to length %d: sign, write, read, verify (PGPy and independent)' % ctx.n(3, 4))
